@@ -200,7 +200,7 @@ fn defs_of(file: &File) -> BTreeSet<(String, String)> {
 
 pub fn run(ctx: &Ctx) -> (Spec, Report) {
     let seed = ctx.seed;
-    let n = ctx.tier.pick(160, 3000);
+    let n = ctx.tier.pick(400, 4000);
     let langs: Vec<LangId> = ALL_LANGS.iter().copied().filter(|l| !matches!(l, LangId::Scala | LangId::Go)).collect();
     // phase 1: run the binary (multi-file and single-file) for every workspace x language
     struct RunRec {
